@@ -36,7 +36,7 @@ __CPROVER_decreases((ptrdiff_t)n - i)
 
 # ---------------------------------------------------------------- axpby
 axpby = Unit(
-    name='builtin_axpby', props=['C07', 'C10'],
+    name='builtin_axpby', props=['C07', 'C15', 'C10'],
     functions=['backend::axpby_impl<A,Vec1,B,Vec2>::apply (builtin vectors)'],
     desc='y = a*x + b*y; b==0 overwrites (old y, even NaN, cannot influence the result)',
     cuts={'body': Cut(SRC, r'static void apply\(A a, const Vec1 &x, B b, Vec2 &y\)\s*(?=\{)',
@@ -66,7 +66,7 @@ void h_f_axpby(void) { V a, b; const V *x; V *y; size_t n; f_axpby(a, x, n, b, y
 
 # ---------------------------------------------------------------- axpbypcz
 axpbypcz = Unit(
-    name='builtin_axpbypcz', props=['C07', 'C10'],
+    name='builtin_axpbypcz', props=['C07', 'C15', 'C10'],
     functions=['backend::axpbypcz_impl<...>::apply (builtin vectors)'],
     desc='z = a*x + b*y + c*z; c==0 overwrites',
     cuts={'body': Cut(SRC, r'static void apply\(A a, const Vec1 &x, B b, const Vec2 &y, C c, Vec3 &z\)\s*(?=\{)',
@@ -97,7 +97,7 @@ void h_f_axpbypcz(void) { V a, b, c; const V *x, *y; V *z; size_t n; f_axpbypcz(
 
 # ---------------------------------------------------------------- vmul (same static_rows)
 vmul = Unit(
-    name='builtin_vmul', props=['C07', 'C10'],
+    name='builtin_vmul', props=['C07', 'C15', 'C10'],
     functions=['backend::vmul_impl<...>::apply (builtin vectors, same block size)'],
     desc='z = a*x*y + b*z (elementwise); b==0 overwrites',
     cuts={'body': Cut(SRC, r'static void apply\(Alpha a, const Vec1 &x, const Vec2 &y, Beta b, Vec3 &z\)\s*(?=\{)',
@@ -129,7 +129,7 @@ void h_f_vmul(void) { V a, b; const V *x, *y; V *z; size_t n; f_vmul(a, x, n, y,
 
 # ---------------------------------------------------------------- copy
 copy = Unit(
-    name='builtin_copy', props=['C07', 'C10'],
+    name='builtin_copy', props=['C07', 'C15', 'C10'],
     functions=['backend::copy_impl<Vec1,Vec2>::apply (builtin vectors)'],
     desc='y = x',
     cuts={'body': Cut(SRC, r'static void apply\(const Vec1 &x, Vec2 &y\)\s*(?=\{)',
@@ -153,7 +153,7 @@ void h_f_copy(void) { const V *x; V *y; size_t n; f_copy(x, n, y); }
 
 # ---------------------------------------------------------------- clear
 clear = Unit(
-    name='builtin_clear', props=['C07', 'C10'],
+    name='builtin_clear', props=['C07', 'C15', 'C10'],
     functions=['backend::clear_impl<Vec>::apply (builtin vectors)'],
     desc='x = 0',
     cuts={'body': Cut(SRC, r'static void apply\(Vec &x\)\s*(?=\{)',
@@ -236,16 +236,16 @@ R_INST = [
 ]
 
 spmv = Unit(
-    name='builtin_spmv', props=['C07', 'C10'],
+    name='builtin_spmv', props=['C07', 'C15', 'C10'],
     functions=['backend::spmv_impl<Alpha, crs, Vec1, Beta, Vec2>::apply (matrix_ops.hpp, same block size)'],
     desc='y = alpha A x + beta y, row by row: y[k] == alpha * fold_k + beta * y0[k] (beta == 0: old y not read), fold_k = sum of a_kj * x_j in row order',
     cuts={'body': Cut(MOPS, r'static void apply\(\s*Alpha alpha, const Matrix &A, const Vector1 &x, Beta beta, Vector2 &y\s*\)\s*(?=\{)', nth=0,
                       rules=R_ITER + R_INST,
-                      uf=[UF(r'y\[i\] = (?P<e>[^;]+);', 2), UF(r'UFE\((?P<e>[^()]*(?:\([^()]*\)[^()]*)*)\)', 2)],
+                      uf=[UF(r'y\[i\] = (?P<e>[^;]+);', '+'), UF(r'UFE\((?P<e>[^()]*(?:\([^()]*\)[^()]*)*)\)', '+')],
                       loops=[Loop(r'for\(ptrdiff_t i = 0;', mo_outer('y', 'e_nz', 'y[g_k] == g_yk'), nth=0, prefix=True),
                              Loop(r'for\(typename row_iterator', MO_INNER, nth=0, prefix=True),
-                             Loop(r'for\(ptrdiff_t i = 0;', mo_outer('y', 'e_z', '1'), nth=1, prefix=True),
-                             Loop(r'for\(typename row_iterator', MO_INNER, nth=1, prefix=True)])},
+                             Loop(r'for\(ptrdiff_t i = 0;', mo_outer('y', 'e_z', '1'), nth=1, prefix=True, optional=True),
+                             Loop(r'for\(typename row_iterator', MO_INNER, nth=1, prefix=True, optional=True)])},
     template=MO_HDR + r'''
 void f_spmv(V alpha, size_t A_nrows, ptrdiff_t nnz, const ptrdiff_t *A_ptr, const ptrdiff_t *A_col, const V *A_val,
             const V *x, size_t x_n, V beta, V *y)
@@ -269,7 +269,7 @@ void h_f_spmv(void) { V al, be; size_t n, xn; ptrdiff_t nnz; const ptrdiff_t *p,
 )
 
 residual = Unit(
-    name='builtin_residual', props=['C07', 'C10'],
+    name='builtin_residual', props=['C07', 'C15', 'C10'],
     functions=['backend::residual_impl<crs, Vec1, Vec2, Vec3>::apply (matrix_ops.hpp, same block size)'],
     desc='res = rhs - A x, row by row: res[k] == rhs[k] - fold_k',
     cuts={'body': Cut(MOPS, r'static void apply\(\s*Vector1 const &rhs,\s*Matrix  const &A,\s*Vector2 const &x,\s*Vector3       &res\s*\)\s*(?=\{)',
@@ -306,7 +306,7 @@ __CPROVER_loop_invariant(0 <= i && i <= (ptrdiff_t)n && s == g_s[i] && c == g_c[
 __CPROVER_decreases((ptrdiff_t)n - i)
 '''
 inner_product = Unit(
-    name='builtin_inner_product_serial', props=['C07', 'C10'],
+    name='builtin_inner_product_serial', props=['C07', 'C15', 'C10'],
     functions=['backend::inner_product_impl<Vec1,Vec2>::serial (builtin vectors)'],
     desc='serial inner product: the Kahan-compensated recurrence over math::inner_product(x[i], y[i]) with x as FIRST and y as SECOND operand (the order carries conjugate-linearity in the second argument); empty frame; zero for n == 0',
     cuts={'body': Cut(SRC, r'static return_type serial\(const Vec1 &x, const Vec2 &y\)\s*(?=\{)',
@@ -347,7 +347,7 @@ __CPROVER_loop_invariant(lo <= i && i <= hi && s == g_s[i] && c == g_c[i])
 __CPROVER_decreases(hi - i)
 '''
 inner_product_par = Unit(
-    name='builtin_inner_product_parallel_region', props=['C07', 'C09', 'C10'],
+    name='builtin_inner_product_parallel_region', props=['C07', 'C09', 'C15', 'C10'],
     functions=['backend::inner_product_impl<Vec1,Vec2>::parallel -- the omp parallel region (per-thread body)'],
     desc='per-thread body of the parallel inner product: for an arbitrary thread id and an arbitrary chunk [lo,hi) of the iteration space, sum[tid] is the Kahan recurrence over math::inner_product(x[i], y[i]) (x first, y second) on that chunk; only sum[tid] is written',
     cuts={'body': Cut(SRC, r'const int tid = omp_get_thread_num\(\);', kind='region', end=r'sum\[tid\] = s;', end_inclusive=True,
